@@ -4,21 +4,6 @@ import (
 	"github.com/trustbloc/sidetree-core-go/pkg/api/operation"
 )
 
-// vWorldSetup builds N records with types chosen by case split; every other attribute symbolic.
-func vWorldSetup(n int, firstIsCreate bool) {
-	vW = &vWorld{}
-	vInstallCommitStub()
-	for i := 0; i < n; i++ {
-		k := 0
-		if i > 0 || !firstIsCreate {
-			k = VNondetRange("type", 0, 3)
-		}
-		r := vNewRec(vOpType(k))
-		VAssume(vCommit(r.reveal) != "") // an encoded multihash is never empty
-		vW.recs = append(vW.recs, r)
-	}
-}
-
 // VHarness_C03_resolve_vs_model: the real Resolve over N published operations in anchoring order
 // equals the reference resolver (DESIGN.md B.2) on every field, error-ness included.
 func VHarness_C03_resolve_vs_model() {
